@@ -1,11 +1,95 @@
-(* C02 — placeholder while the proofs are being developed: see below. *)
+(* C02 — Advertised sync state is an exact, durable summary of what a node holds.
+   Statements only; proofs in Proofs/BookProofs.v; model in Model/Book.v,
+   Model/SeqRows.v, Model/BookOps.v (transcriptions of agent.rs / sync.rs / util.rs). *)
 From Coq Require Import List ZArith Bool Lia.
-From Corro Require Import Lib.Ivl Model.Book Model.SeqRows Model.BookOps Gen.Consts.
+From Corro Require Import Lib.Ivl Model.Book Model.SeqRows Model.BookOps Gen.Consts Proofs.BookProofs.
 Import ListNotations.
 Open Scope Z_scope.
 
-(* the source's PartialVersion::full_range starts at seq 0 (regenerated from
-   agent.rs on every run): is_complete and the apply trigger agree *)
-Theorem C02_is_complete_agrees_with_trigger : forall p, is_complete p = fully_buffered p.
-Proof. intros p. unfold is_complete, fully_buffered. reflexivity. Qed.
-Print Assumptions C02_is_complete_agrees_with_trigger.
+(* (1) One insertion of ANY set of version ranges (overlapping existing gaps,
+   adjacent to them, repeated, beyond the head, ...) from ANY state satisfying
+   the invariant: never fails on the primary key, every DELETE removes exactly
+   one row, the persisted gap rows stay LITERALLY equal to the in-memory
+   needed set (hence pairwise disjoint, non-adjacent, inside 1..head-1), and
+   the new needed set is (needed ∪ the gap opened beyond the old head) minus
+   the inserted versions; partial entries are only ever dropped, not invented. *)
+Theorem C02_insert_db_exact : forall b rs vs, Inv b rs -> wf_vs vs ->
+  exists b',
+    insert_db b rs vs = IdbOk b' (needed b') false /\
+    Inv b' (needed b') /\
+    (forall x, mem x (needed b') <->
+               (mem x (needed b) \/ exists v, In v vs /\ gapx b x v) /\ ~ mem x vs) /\
+    max0 (maxv b) <= max0 (maxv b') /\
+    (forall v, In v vs -> snd v <= max0 (maxv b')) /\
+    (forall v p, aget v (partials b') = Some p -> aget v (partials b) = Some p).
+Proof. exact insert_db_ok. Qed.
+Print Assumptions C02_insert_db_exact.
+
+(* (2) Every reachable state: any sequence of range-set insertions and
+   partial-chunk insertions from the empty bookkeeping keeps the invariant and
+   never reports a failed INSERT or an ineffective DELETE. *)
+Theorem C02_reachable_invariant : forall ops,
+  Forall op_ok ops ->
+  Forall (fun r => Inv (st_bv (fst r)) (st_rows (fst r)) /\ out_fine (snd r))
+         (bruns bstate_init ops).
+Proof. intros ops H. apply bruns_inv; [exact Inv_init|exact H]. Qed.
+Check C02_reachable_invariant : forall ops,
+  Forall (fun op => match op with
+                    | OpInsert raw => Forall (fun r => 1 <= fst r <= snd r) raw
+                    | OpPartial v s e last => 1 <= v /\ 0 <= s <= e
+                    | OpReload => False end) ops ->
+  Forall (fun r => Inv (st_bv (fst r)) (st_rows (fst r)) /\
+                   match snd r with OutIdbErr | OutBadDelete => False | _ => True end)
+         (bruns bstate_init ops).
+Print Assumptions C02_reachable_invariant.
+
+(* (3) What generate_sync advertises for an actor is the exact partition of
+   1..head: a version is advertised needed / partial / held / beyond exactly
+   when it is, and for a partial the advertised missing seqs are exactly the
+   gaps of 0..=last_seq.  The side condition on the source's full_range() is
+   discharged against Gen/Consts.v, regenerated from agent.rs on every run. *)
+Theorem C02_advertised_partition : forall b rs v, Inv b rs -> 1 <= v ->
+  adv_class (sync_actor b) v = classify b v /\
+  (classify b v = PartialC ->
+   exists p, aget v (partials b) = Some p /\
+     exists a, sync_actor b = Some a /\
+       aget v (a_partial a) = Some (gaps 0 (p_last p) (p_seqs p))).
+Proof. intros b rs v. apply adv_exact. vm_compute. reflexivity. Qed.
+Print Assumptions C02_advertised_partition.
+
+(* the classes are what the property says they are *)
+Theorem C02_classes_meaning : forall b v,
+  (classify b v = Needed <-> mem v (needed b)) /\
+  (classify b v = Held -> contains_version b v = true) /\
+  (classify b v = PartialC -> contains_version b v = true /\
+                              exists p, aget v (partials b) = Some p /\ fully_buffered p = false) /\
+  (classify b v = Beyond -> max0 (maxv b) < v).
+Proof.
+  intros b v. unfold classify, contains_version.
+  destruct (memb v (needed b)) eqn:E.
+  - apply memb_iff in E. repeat split; auto; discriminate.
+  - assert (~ mem v (needed b)) by (intros H; apply memb_iff in H; congruence).
+    destruct (v <=? max0 (maxv b)) eqn:E2; cbn [negb].
+    + destruct (aget v (partials b)) as [p|]; [destruct (fully_buffered p) eqn:Ef|];
+        repeat split; try discriminate; try tauto; try reflexivity.
+      exists p. split; reflexivity || assumption.
+    + apply Z.leb_gt in E2. repeat split; try discriminate; try tauto; intros; lia.
+Qed.
+Print Assumptions C02_classes_meaning.
+
+(* (4) the decidable oracle evaluated on implementation states implies the invariant *)
+Theorem C02_oracle_sound : forall b rs, inv_b b rs = true -> Inv b rs.
+Proof. exact inv_b_sound. Qed.
+Print Assumptions C02_oracle_sound.
+
+(* non-vacuity: a reachable state with gaps and a partial; and a set insertion
+   that overlaps, touches and extends *)
+Example C02_nonvacuous :
+  let ops := [OpInsert [(3, 4)]; OpPartial 6 1 5 5; OpInsert [(1, 1); (8, 8)]] in
+  Forall op_ok ops /\
+  map (fun r => (needed (st_bv (fst r)), st_rows (fst r))) (bruns bstate_init ops) =
+    [([(1, 2)], [(1, 2)]); ([(1, 2); (5, 5)], [(1, 2); (5, 5)]);
+     ([(2, 2); (5, 5); (7, 7)], [(2, 2); (5, 5); (7, 7)])].
+Proof.
+  split; [repeat constructor; cbn; lia|vm_compute; reflexivity].
+Qed.
